@@ -5,7 +5,7 @@ network).  Each driver = gen(rng) -> cfg (plain JSON) and build(zoo, cfg).
 """
 from __future__ import annotations
 
-from simkit.c07_zoo import NS, InvalidScenario, arrivals, check_arr, check_num, lat, ns
+from simkit.c07_zoo import NS, InvalidScenario, arrivals, check_arr, check_num, lat, lossy, ns, rel
 
 from happysimulator.components.client.client import Client
 from happysimulator.components.client.connection_pool import ConnectionPool
@@ -427,7 +427,7 @@ def _pooled():
     def gen(rng):
         to = rng.choice([None, lat(rng, zero_p=0.0, hi=0.08)])
         rp = gen_retry(rng)
-        idle = rng.choice([0.004, 0.01, 0.05, 1.0, 60.0])
+        idle = rng.choice([0.004, 0.01, 0.05, 1.0, 60.0, lossy(rng, 0.01, 0.2)])
         ct = rng.choice([0.05, 0.2, 1.0])
         c = flow_cfg(rng, marks=[to, idle, ct] + retry_marks(rp), n=rng.randint(5, 24))
         c.update(timeout=to, retry=rp, svc=svc_times(rng, slow=to), minc=rng.choice([0, 0, 1, 2, 3]),
